@@ -723,13 +723,18 @@ func (g *Gen) op(op string, v *view) []byte {
 		}
 		rem := d.SlashAmount.Sub(d.FeeTotal).Int64()
 		amt := rem
-		switch g.r.Pick(4) {
+		switch g.r.Pick(5) {
 		case 0:
 			amt = rem/2 + 1
 		case 1:
 			amt = rem + 5
 		case 2:
 			amt = g.amount(rem)
+		case 3:
+			// leaves the dispute between 95 % and 100 % paid (never complete)
+			if short := 1 + g.r.Int63n(d.SlashAmount.Int64()/20+1); short < rem {
+				amt = rem - short
+			}
 		}
 		fromBond := g.r.Chance(0.2)
 		if fromBond && len(v.reporters) > 0 {
@@ -841,6 +846,17 @@ func (g *Gen) op(op string, v *view) []byte {
 		if g.r.Chance(g.P.Hostile * 0.3) {
 			ids = append(ids, ids[0])
 			idx = append(idx, idx[0])
+		}
+		if g.r.Chance(g.P.Hostile * 0.5) {
+			// a deposit id nobody ever reported (its query id lies somewhere between the others), or an index past the
+			// aggregates of a reported one: there is no aggregate "for that deposit's query" to claim from
+			k := g.r.Pick(len(ids))
+			if g.r.Chance(0.7) {
+				ids[k] = uint64(20 + g.r.Pick(400))
+				idx[k] = uint64(g.r.Pick(2))
+			} else {
+				idx[k] = uint64(1 + g.r.Pick(4))
+			}
 		}
 		return g.tx(s, &bridgetypes.MsgClaimDepositsRequest{Creator: s.Bech(), DepositIds: ids, Indices: idx})
 	case "requestAttest":
